@@ -117,6 +117,10 @@ def split(r, chunk=150):
 def evaluate(ck, recs):
     parts = []
     for r in recs:
+        if not r.get("msgok", True):
+            ck.failures.append(dict(kind="input", key="c06:msg:spec", spec_violated=True, case={"scenario": r["id"], "phase": r.get("phase")},
+                                    what="Certificate.Sign/Verify do not use the LIP certificate message SHA-256('LSK_CE_' || chainID || encode(blockID, height, timestamp, stateRoot, validatorsHash)): the signature the implementation produces differs from the independently computed one (scenario %d)" % r["id"],
+                                    theorem_or_correspondence="msg_of (Section variable) vs Certificate.SigningBytes/Sign"))
         if any(o.get("panic") for o in r["ops"]):
             o = [o for o in r["ops"] if o.get("panic")][0]
             ck.fail_case("c06:panic:%s" % o["t"], "certificate code panicked (%s) in scenario %d on %s" % (
